@@ -5,11 +5,12 @@ from .common import *   # noqa: F401,F403
 from . import linegen as lg
 
 KS = ["KBpm", "KTs", "KAnchor"]
+LEAF = ['Leaf_bpm', 'Leaf_timed']      # translated leaf functions this property's model relies on (Tie/<name>.v)
 RULE = ("(a) line level: canonical B/TS/A lines (1-20 digit numbers, leading zeros, pads, non-ASCII decimal digits, trailing newline), canonical lines of the other kinds, near misses and "
         "one-character mutations, each given to BPMEvent/TimeSignatureEvent/AnchorEvent.ParsedData.from_chart_line and judged against the reference decoder; "
         "(b) chart level: [SyncTrack] sections with B n for n over 1..999 (every value once in thorough), stratified larger n incl. the pinned-tree witnesses 1118, 20548, up to 12 digits, "
         "leading zeros; TS u / TS u l for u in 0..99 and big, l in 0..16 and up to 63; A us up to 10^13; judged: bpm bit pattern = RN(n/1000) computed by one IEEE division inside Coq, "
-        "upper/lower numerals, anchor microseconds. Non-trivial: all (b) cases with >= 3 distinct values, (a) cases accepted by some kind or near an accepted line; distinct by input")
+        "upper/lower numerals, anchor microseconds; the [Song] section of these charts carries a zero / non-zero Offset and other metadata, which must not move anything. Non-trivial: all (b) cases with >= 3 distinct values, (a) cases accepted by some kind or near an accepted line; distinct by input")
 ASSUMPTIONS = ["n < 2^52 for tempo numerals (the theorem's range; larger n are compared model-vs-implementation only when the model does not decline)"]
 
 C_IN = "(C08_aux * %s)" % PARSE_IN
@@ -19,7 +20,7 @@ C_SPEC = "fun i o => C08_spec (fst i) o"
 WITNESS = [1118, 20548, 1, 7, 50, 99, 100, 999, 1000, 1001, 4100, 8201, 16402, 33554, 120000, 117000, 999999, 1000000000, 123456789012, 2 ** 52 - 1]
 
 
-def chart_case(rng, bpms, tss, ans):
+def chart_case(rng, bpms, tss, ans, song=None):
     """bpms: [(tick, n, raw)], tss: [(tick, u, l|None)], ans: [(tick, us)]"""
     sync = ["%d = TS %d%s" % (t, u, "" if l is None else " %d" % l) for t, u, l in tss]
     sync += ["%d = B %s" % (t, raw) for t, n, raw in bpms]
@@ -31,15 +32,24 @@ def chart_case(rng, bpms, tss, ans):
         while any(by.values()):
             k = rng.choice([k for k, v in by.items() if v])
             sync.append(by[k].pop(0))
-    text = chart_text(res=rng.choice([192, 480, 1]), sync=sync)
+    # a non-zero [Song] Offset (and other metadata) must not move anchors or tempo events
+    song = rng.choice([None, None, ["Offset = 1"], ["Offset = 3", 'Name = "x"'], ["Offset = 0"], ["PreviewStart = 5", "Offset = 12"]]) if song is None else song
+    text = chart_text(res=rng.choice([192, 480, 1]), sync=sync, song=song)
     ch, exc, out = parse_case(text)
     aux = "(true, %s, %s, %s)" % (coq_list("(%s, %s)" % (coq_Z(t), coq_Z(n)) for t, n, _ in bpms),
                                  coq_list("(%s, %s, %s)" % (coq_Z(t), coq_Z(u), coq_option(l, coq_Z)) for t, u, l in tss),
                                  coq_list("(%s, %s)" % (coq_Z(t), coq_Z(us)) for t, us in ans))
-    return dict(case=dict(kind="chart", text=text, bpms=[list(x) for x in bpms], tss=[list(x) for x in tss], ans=[list(x) for x in ans]),
+    return dict(case=dict(kind="chart", text=text, song=song or [], bpms=[list(x) for x in bpms], tss=[list(x) for x in tss], ans=[list(x) for x in ans]),
                 in_term="(%s, %s)" % (aux, parse_in_term(text)), out_term=out,
                 nontrivial=len({n for _, n, _ in bpms}) + len(tss) + len(ans) >= 3,
                 tags=["chart", "impl_error" if exc is not None else "impl_ok"], signature="C08c:" + key_of(text))
+
+
+def just_above_pow2(rng):
+    """A tempo whose value n/1000 lies up to 2.5 % above a power of two (the spacing of doubles doubles there: the
+    three-decimal validation and the decode are at their tightest)."""
+    k = rng.randint(0, 23)
+    return 1000 * 2 ** k + rng.randint(0, 25 * 2 ** k)
 
 
 def gen_chart(rng, ns):
@@ -69,7 +79,7 @@ def chart_cases(ctx, n):
     out = []
     for c in load_corpus("C08"):
         if c.get("kind") == "chart":
-            out.append(chart_case(rng, [tuple(x) for x in c["bpms"]], [tuple(x) for x in c["tss"]], [tuple(x) for x in c["ans"]]))
+            out.append(chart_case(rng, [tuple(x) for x in c["bpms"]], [tuple(x) for x in c["tss"]], [tuple(x) for x in c["ans"]], c.get("song", [])))
     out.append(gen_chart(rng, WITNESS[:10]))
     out.append(gen_chart(rng, WITNESS[10:]))
     # TS exponents 0..16 explicitly
@@ -83,7 +93,8 @@ def chart_cases(ctx, n):
             ns = small[k * per:(k + 1) * per]
             k += 1
         else:
-            ns = [rng.choice([rng.randint(1, 99), rng.randint(1, 2000), rng.randint(1, 10 ** 7), rng.randint(1, 10 ** 12), rng.choice(WITNESS)]) for _ in range(per)]
+            ns = [rng.choice([rng.randint(1, 99), rng.randint(1, 2000), rng.randint(1, 10 ** 7), rng.randint(10 ** 6, 10 ** 7), rng.randint(1, 10 ** 12), rng.choice(WITNESS), just_above_pow2(rng)])
+                  for _ in range(per)]
         out.append(gen_chart(rng, ns))
     return out
 
@@ -106,7 +117,7 @@ def line_cases(ctx, n):
 def run(ctx, only=None):
     if only:
         rng = ctx["rng"]
-        cs = [chart_case(rng, [tuple(x) for x in c["bpms"]], [tuple(x) for x in c["tss"]], [tuple(x) for x in c["ans"]]) for c in only if c and c.get("kind") == "chart"]
+        cs = [chart_case(rng, [tuple(x) for x in c["bpms"]], [tuple(x) for x in c["tss"]], [tuple(x) for x in c["ans"]], c.get("song", [])) for c in only if c and c.get("kind") == "chart"]
         ls = [lg.dec_case(c["kind"], c["line"]) for c in only if c and c.get("kind") in KS]
     else:
         quick = ctx["tier"] == "quick"
